@@ -175,7 +175,7 @@ theorem sql_refines_spec_union {lc rc : Ast} {scl scr : List Uid} (hl : Base lc 
     (hsame : ∀ e ∈ (Spec.run db lc).visible, ((Spec.run db rc).visible.find? (·.1 == e.1)).isSome = true)
     (needed : Needed) :
     ∃ r n', compile (.union i lc rc d) needed = .ok (r, n') ∧ Sql.run db r = (Spec.run db (.union i lc rc d)).frame := by
-  obtain ⟨l, n1, hcl, invl⟩ := hl.ref db needed
+  obtain ⟨l, n1, hcl, invl⟩ := hl.ref db ((unionCols lc rc d).foldl Needed.incr needed)
   obtain ⟨r, n2, hcr, invr⟩ := hr.ref db n1
   have hpbr := hr.pb _ r n2 hcr
   have hln : l.query.select.map l.defs.name = (Spec.run db lc).visible.map (·.1) := by
@@ -193,7 +193,7 @@ theorem sql_refines_spec_union {lc rc : Ast} {scl scr : List Uid} (hl : Base lc 
       exact mapM_find r.defs _ invr.hname _ hsame
   refine ⟨⟨Src.union l.src l.query l.defs r.src { r.query with select := rselOf (Spec.run db lc).visible (Spec.run db rc).visible } r.defs d l.query.select,
             { select := l.query.select, partitionBy := [] },
-            l.query.select.map (fun u => (u, l.defs.name u, Expr.col u .null .elementWise))⟩, n2, ?_, ?_⟩
+            l.query.select.map (fun u => (u, l.defs.name u, Expr.col u .null .elementWise))⟩, (unionCols lc rc d).foldl Needed.decr n2, ?_, ?_⟩
   · simp only [pure, Except.pure] at hrsel
     simp only [compile, hcl, hcr, bind, Except.bind, hrsel, hpbr, invr.hg, List.isEmpty_nil, Bool.not_true, Bool.or_self, Bool.false_eq_true,
       ↓reduceIte, pure, Except.pure]
